@@ -110,6 +110,11 @@ namespace enki
         // Also known as grain size in literature.
         uint32_t                m_MinRange;
 
+        // Set for fire-and-forget task sets (m_SetSize == 1, allocated with new, never waited on):
+        // the scheduler deletes the task set after its partition has run. Such a task must not
+        // delete itself in ExecuteRange, as the scheduler still updates its running count afterwards.
+        bool                    m_DeleteOnCompletion = false;
+
     private:
         friend class            TaskScheduler;
         uint32_t                m_RangeToRun;
@@ -208,6 +213,7 @@ namespace enki
         void             StartThreads();
         void             StopThreads( bool bWait_ );
         void             SplitAndAddTask( uint32_t threadNum_, SubTaskSet subTask_, uint32_t rangeToSplit_ );
+        static void      CompleteSubTask( ITaskSet* pTask_ );
         void             WakeThreads( int32_t maxToWake_ = 0 );
 
         TaskPipe*                                                m_pPipesPerThread;
